@@ -26,14 +26,17 @@ MODES_COUNT = [["-n"]]
 
 
 def plan(tier, seed):
-    return [{"mode": "junk", "donors": 3 if tier == "quick" else 30, "step": 3 if tier == "quick" else 1,
-             "rseed": seed * 1000 + i, "registry": i % 3 != 2} for i in range(16)]
+    specs = [{"mode": "junk", "donors": 3 if tier == "quick" else 30, "step": 3 if tier == "quick" else 1,
+              "rseed": seed * 1000 + i, "registry": i % 3 != 2} for i in range(15)]
+    # the same relation in real processes (real stdout encodings, junk files with names that are not valid UTF-8)
+    specs.append({"mode": "sub", "n": 6 if tier == "quick" else 120, "rseed": seed * 1000 + 400})
+    return specs
 
 
 def minimums(tier):
     return {"relation.checked": 1200, "junk.files": 8000, "junk.truncation": 1000, "junk.corruption": 4000,
             "junk.edit": 300, "mode.-a": 100, "mode.-l": 100, "mode.-n": 100, "mode.-j": 100, "mode.--plid": 30,
-            "mode.--src": 30, "mode.--src-exclude": 30, "mode.-a -x": 30, "mode.-l -x": 30}
+            "mode.--src": 30, "mode.--src-exclude": 30, "mode.-a -x": 30, "mode.-l -x": 30, "sub.relations_checked": 40}
 
 
 def classify(data, cls):
@@ -114,12 +117,65 @@ def wellformed(argv, out):
         cliparse.parse_list(out)
 
 
+def run_sub(spec, ctx, rng, u, reg, root):
+    for i in range(spec["n"]):
+        good = dirs.gen_dir_model(rng, u, rng.choice([1, 2, 4]), reg=reg, fixtures=False)
+        clean = dirs.PelDir(os.path.join(root, "sclean"))
+        clean.extend(good)
+        dirty = dirs.PelDir(os.path.join(root, "sdirty"))
+        for e in good:
+            dirty.add(dirs.Entry(e.name, e.pel, e.data))
+        junk = [(b"caf\xe9-notes.txt", b"hello world, this is not a PEL\n"), (b"\xff\xfe.bin", bytes(rng.randrange(256) for _ in range(60))),
+                (b"0_first.txt", b"PX" + bytes(40)), (b"zz_empty", b""), (b"m\xc3\xa9moire.pel", good[0].data[:30]),
+                (b"~latin1-\xe4\xf6\xfc", b"#!/bin/sh\necho junk\n")]
+        for nm, content in junk:
+            with open(os.path.join(os.fsencode(dirty.root), nm), "wb") as f:
+                f.write(content)
+        os.makedirs(os.path.join(dirty.root, "nested"), exist_ok=True)
+        with open(os.path.join(dirty.root, "nested", good[0].name), "wb") as f:
+            f.write(good[0].data)
+        for envx in ({}, {"PYTHONIOENCODING": "utf-8:strict"}, {"PYTHONIOENCODING": "ascii"}):
+            for argv in (["-a"], ["-l"], ["-n"], ["-j"], ["--src", "B"], ["-a", "-x"]):
+                res = []
+                for dd in (clean, dirty):
+                    out = os.path.join(root, "sout")
+                    shutil.rmtree(out, ignore_errors=True)
+                    os.makedirs(out)
+                    p = harness.cli_sub(["-p", dd.root, "-E"] + argv + (["-o", out] if argv == ["-j"] else []), extra_env=envx)
+                    files = {fn: open(os.path.join(out, fn), "rb").read() for fn in sorted(os.listdir(out))}
+                    res.append((p, files))
+                (p0, f0), (p1, f1) = res
+                ctx.current = {"argv": argv, "env": envx, "good": [e.name for e in good]}
+                ctx.case(repr(argv) + repr(sorted(envx.items())) + str(i) + str(spec["rseed"]), True,
+                         sample={"argv": argv, "env": envx, "junk_names": [repr(n) for n, _ in junk]} if i == 0 and argv == ["-j"] else None)
+                ctx.count("sub.relations_checked")
+                if p1 is None or p0 is None:
+                    ctx.violation("C09/sub-watchdog", "peltool %s did not finish" % argv)
+                    continue
+                err = p1.stderr.decode("utf-8", "replace")
+                if p1.returncode != 0 or "Traceback (most recent call last)" in err:
+                    ctx.violation("C09/exit-status/" + argv[0], "peltool %s (own process, env %s) with junk files present: rc=%d %s" %
+                                  (" ".join(argv), envx, p1.returncode, err[-400:]))
+                    continue
+                if argv == ["-j"]:
+                    if f0 != f1:
+                        ctx.violation("C09/json-files-differ", "-j (own process, env %s) wrote %s with junk present, %s without" %
+                                      (envx, sorted(f1)[:6], sorted(f0)[:6]))
+                elif p0.stdout != p1.stdout:
+                    ctx.violation("C09/output-differs/" + argv[0], "stdout of %s (own process, env %s) changes when undecodable files are added" %
+                                  (" ".join(argv), envx), dirty_tail=p1.stdout[-300:])
+        clean.remove()
+        dirty.remove()
+
+
 def run(spec, ctx):
     harness.repo()
     rng = random.Random(spec["rseed"])
     u = pm.Uniq(spec["shard"] * 10_000_000)
     reg = harness.registry_model()
     root = harness.scratch_root()
+    if spec["mode"] == "sub":
+        return run_sub(spec, ctx, rng, u, reg, root)
     excl = os.path.join(root, "exclude.txt")
     with open(excl, "w") as f:
         f.write("NOTHING\n")
